@@ -238,7 +238,13 @@ type NamedBytes []byte
 type NamedInts []int32
 type NamedKeyMap map[NamedStr]int32
 
+// KeyStr is a string key type that also has a String method (a fmt.Stringer): as a map key it is still a string.
+type KeyStr string
+
+func (k KeyStr) String() string { return "KeyStr(" + string(k) + ")" }
+
 type Zoo struct {
+	SK   map[KeyStr]int32
 	NF32 NamedF32
 	NF64 NamedF64
 	NB   NamedBool
@@ -268,6 +274,7 @@ func genZoo(r *vm.Rand) Zoo {
 		z.NBy = NamedBytes(r.Bytes(r.Intn(5)))
 		z.NIs = NamedInts{int32(r.Int64B()), 7}
 		z.NKM = NamedKeyMap{NamedStr(s()): 5, "zz": int32(r.Int64B())}
+		z.SK = map[KeyStr]int32{KeyStr(s()): 1, "k2": int32(r.Int64B())}
 	}
 	for i := r.Intn(3); i > 0; i-- {
 		z.TTs = append(z.TTs, TextT{r.Intn(9), -r.Intn(9)})
